@@ -725,12 +725,22 @@ def _status_chunk(lines):
     return [(line, bad) for line in lines for bad in [_status_replay(line)] if bad]
 
 
-GEN_QUICK = ['Gen_EnumLib_quick_build.cfg', 'Gen_EnumLib_quick_build2.cfg', 'Gen_EnumLib_quick_build3.cfg', 'Gen_EnumLib_quick_cmp.cfg',
-             'Gen_EnumLib_quick_arith.cfg', 'Gen_EnumLib_quick_misc.cfg']
+GEN_QUICK = ['Gen_EnumLib_quick_build.cfg', 'Gen_EnumLib_quick_build2.cfg', 'Gen_EnumLib_quick_build3.cfg', 'Gen_EnumLib_quick_ops.cfg',
+             'Gen_EnumLib_quick_misc.cfg']
 GEN_THOROUGH = ['Gen_EnumLib_thorough_build.cfg', 'Gen_EnumLib_thorough_build2.cfg', 'Gen_EnumLib_thorough_build3.cfg',
                 'Gen_EnumLib_thorough_cmp.cfg', 'Gen_EnumLib_thorough_arith.cfg', 'Gen_EnumLib_thorough_misc.cfg']
 MUST_FAIL = {'FloatTrunc': 'ComparesLikeItsValue', 'Mutable': 'Frozen', 'PowMember': 'OperatorsUnwrap',
              'ReservedName': 'OrderIndependent', 'NoDupValue': 'IsBijection'}
+
+
+def _corrupt(tr):
+    """a copy of a recorded program with one wrong result (binding self-test), or None"""
+    for j, e in enumerate(tr):
+        if e['ev'] == 'proj' and e['out']['m']:
+            bad = json.loads(json.dumps(tr))
+            bad[j]['out']['m'][0]['v'] += 1
+            return bad
+    return None
 
 
 def run(chk):
@@ -740,34 +750,54 @@ def run(chk):
     stage = {}
     chk.rule = ('every transition of the TLC state graph of EnumLib (source state reached by its first path of '
                 'constructions; step = construction / extension / rename / lookup / comparison / arithmetic / conversion / '
-                'mutation attempt / equality) replayed on frappy.lib.enum; a case is distinct by its printed line; '
-                'non-trivial = the enum under test has at least one member')
-    for m in ('EnumLib', 'Gen_EnumLib', 'Trace_EnumLib', 'EnumStatus', 'Gen_EnumStatus'):
-        sany(m)
+                'mutation attempt / equality / use through EnumType) replayed on frappy.lib.enum, a case is distinct by its '
+                'printed line, non-trivial = the enum under test has at least one member; every sequence of class '
+                'definitions of Gen_EnumStatus built for real; seeded random programs (distinct by their recording) '
+                'judged by Trace_EnumLib')
+    run_parallel([lambda m=m: sany(m) for m in ('Gen_EnumLib', 'Trace_EnumLib', 'Gen_EnumStatus')], width=3)
     tier = 'quick' if quick else 'thorough'
     gens = GEN_QUICK if quick else GEN_THOROUGH
-    thunks = [lambda: model_check('EnumLib', f'MC_EnumLib_{tier}.cfg', timeout=1500, workers=4 if quick else 8)]
-    fails = sorted(MUST_FAIL)
-    for d in fails:
-        thunks.append(lambda d=d: run_tlc('EnumLib', f'MC_EnumLib_asimpl_{d}.cfg', timeout=600, workers=2))
+
+    # ---- random programs on the real library (recorded now, judged by TLC below)
+    n = 800 if quick else 30000
+    seeds = [chk.seed * 1000003 + i for i in range(n)]
+    traces = []
+    for part in pool_map(_rand_chunk, [seeds[i::32] for i in range(32)], chunksize=1):
+        traces.extend(part)
+    # binding self-test: recordings with one corrupted result ride along and must be rejected
+    corrupted = [c for c in (_corrupt(tr) for tr in traces[:40]) if c][:5]
+    if not corrupted:
+        raise MachineryError('no recorded program fit for the self-test')
+    stage['programs'] = round(_t.time() - t0, 1)
+
+    # ---- all TLC work side by side
+    thunks = [lambda: model_check('EnumLib', f'MC_EnumLib_{tier}.cfg', timeout=1500, workers=2 if quick else 8),
+              lambda: validate_traces('Trace_EnumLib', traces + corrupted, 'Trace_EnumLib.cfg', timeout=1500,
+                                      collect=('DEVS',), chunk=4000),
+              lambda: _emit(f'Gen_EnumStatus_{tier}.cfg', 'Gen_EnumStatus')]
     for cfg in gens:
         thunks.append(lambda cfg=cfg: _emit(cfg))
-    thunks.append(lambda: _emit(f'Gen_EnumStatus_{tier}.cfg', 'Gen_EnumStatus'))
+    # vacuity: the model with a deviation switch (the code as it stands) / a broken design must violate its property
+    fails = ['NoDupValue'] if quick else sorted(MUST_FAIL)
+    for d in fails:
+        thunks.append(lambda d=d: run_tlc('EnumLib', f'MC_EnumLib_asimpl_{d}.cfg', timeout=600, workers=1))
     if not quick:
         thunks.append(lambda: run_tlc('Gen_EnumStatus', 'MC_EnumStatus_fresh.cfg', timeout=600, workers=1))
-    out = run_parallel(thunks, width=12)
+    out = run_parallel(thunks, width=14)
     if not quick:
         r = out.pop()
         if not (r.violated and r.violated[1] == 'Monotone'):
-            raise MachineryError(f'EnumStatus with a status type that does not extend the base is expected to violate Monotone: {r.violated or r.error}')
-    sr, slines = out.pop()
-    chk.add_tlc(sr)
-    chk.add_tlc(out[0])
-    for d, r in zip(fails, out[1:1 + len(fails)]):
+            raise MachineryError('EnumStatus with a status type that does not extend the base is expected to violate '
+                                 f'Monotone: {r.violated or r.error}')
+    for d, r in zip(fails, out[3 + len(gens):]):
         if not (r.violated and r.violated[1] == MUST_FAIL[d]):
             raise MachineryError(f'the model with switch {d} is expected to violate {MUST_FAIL[d]}: {r.violated or r.error}')
+    chk.add_tlc(out[0])
+    verdicts, st, trn, extra = out[1]
+    sr, slines = out[2]
+    chk.add_tlc(sr)
     lines = set()
-    for (r, b), cfg in zip(out[1 + len(fails):], gens):
+    for (r, b), cfg in zip(out[3:3 + len(gens)], gens):
         chk.add_tlc(r)
         if not b:
             raise MachineryError(f'{cfg} emitted nothing')
@@ -808,14 +838,7 @@ def run(chk):
     chk.sample({'class_hierarchy': _parse_line(slines[len(slines) // 2])['steps']}, limit=8)
     stage['status'] = round(_t.time() - t0, 1)
 
-    # ---- code -> spec: random programs judged by TLC
-    n = 1500 if quick else 30000
-    seeds = [chk.seed * 1000003 + i for i in range(n)]
-    traces = []
-    for part in pool_map(_rand_chunk, [seeds[i::32] for i in range(32)], chunksize=1):
-        traces.extend(part)
-    verdicts, st, trn, extra = validate_traces('Trace_EnumLib', traces, 'Trace_EnumLib.cfg', timeout=1500, collect=('DEVS',),
-                                               chunk=3000)
+    # ---- code -> spec: the verdicts on the recorded programs
     chk.states += st
     chk.transitions += trn
     devs = {}
@@ -823,9 +846,11 @@ def run(chk):
         d = set(json.loads(js))
         devs[i] = d if i not in devs else min(devs[i], d, key=len)
     count = {}
-    clean = None
-    for i, v in verdicts.items():
-        tr = traces[i]
+    for i in range(len(traces), len(traces) + len(corrupted)):
+        if verdicts[i] is None:
+            raise MachineryError('Trace_EnumLib self-test failed: a recording with a corrupted result was accepted')
+    for i, tr in enumerate(traces):
+        v = verdicts[i]
         chk.impl_traces += 1
         chk.case(('prog', json.dumps(tr, sort_keys=True)), any(e['ev'] == 'new' and e['out']['r'] == 'enum' and e['out']['m'] for e in tr))
         if v is not None:
@@ -837,26 +862,13 @@ def run(chk):
                     sig[key] = ev[key]
             chk.violation(sig, {'world': 'prog', 'failed_at': pos, 'event': ev, 'trace': tr})
         else:
-            if clean is None and not devs.get(i) and len(tr) > 12:
-                clean = tr
             for dev in sorted(devs.get(i, ())):
                 count[dev] = count.get(dev, 0) + 1
                 chk.violation({'module': 'EnumLib', 'deviation': dev}, {'world': 'prog', 'trace': tr})
     chk.notes['programs_needing_deviation'] = count
-    if traces:
-        chk.sample({'program_prefix': traces[len(traces) // 2][:6]}, limit=8)
-    stage['programs'] = round(_t.time() - t0, 1)
-
-    # ---- binding self-test: a recording with one corrupted result must be rejected
-    if clean:
-        bad = json.loads(json.dumps(clean))
-        e = next(e for e in bad if e['ev'] == 'proj' and e['out']['m'])
-        e['out']['m'][0]['v'] += 1
-        vd, _, _ = validate_traces('Trace_EnumLib', [clean, bad], 'Trace_EnumLib.cfg', timeout=300)
-        if vd[0] is not None or vd[1] is None:
-            raise MachineryError(f'Trace_EnumLib self-test failed (original accepted: {vd[0] is None}, corrupted rejected: {vd[1] is not None})')
-    chk.notes['binding_selftest'] = bool(clean)
-    stage['selftest'] = round(_t.time() - t0, 1)
+    chk.notes['binding_selftest'] = f'{len(corrupted)} corrupted recordings rejected'
+    chk.sample({'program_prefix': traces[len(traces) // 2][:6]}, limit=8)
+    stage['verdicts'] = round(_t.time() - t0, 1)
     chk.notes['wall_until_end_of_stage'] = stage
     chk.exhaustive = False
 
